@@ -20,6 +20,13 @@ def irt(t, nw, tl, tiers):
 OBLIGATIONS += [irt(1, 0, 0, ["quick", "thorough"]), irt(2, 1, 0, ["quick", "thorough"]), irt(3, 0, 2, ["quick", "thorough"]), irt(9, 1, 0, ["thorough"]),
                 irt(4, 0, 0, ["thorough"]), irt(6, 0, 0, ["thorough"]), irt(10, 0, 2, ["thorough"]), irt(11, 0, 0, ["quick", "thorough"]), irt(13, 0, 0, ["quick", "thorough"])]
 
+OBLIGATIONS.append(dict(name="packfile_keywords", harness="harness/C01_packfile.c",
+    sources=["lib/util/src/parse_int.c", "lib/util/src/canonicalize_name.c", "lib/util/src/split_line.c", "lib/util/src/alloc.c"], stubs=["stubs/vp_ctype.c", "stubs/vp_sysmacros.c"],
+    included_sources=["bin/gensquashfs/src/fstree_from_file.c"], incdirs=["bin/gensquashfs/src"], unwind=12, tiers=["quick", "thorough"], timeout=300, reach=["done"],
+    fp_map={"callback": ["add_generic", "add_device", "add_file"]},
+    functions=["handle_line, add_generic, add_device, add_file, file_list_hooks (bin/gensquashfs/src/fstree_from_file.c)", "parse_uint, parse_uint_oct", "canonicalize_name"],
+    bound="every keyword of the pack file syntax (symbolic choice) with a well-formed line; fields concrete"))
+
 ASSUMPTIONS = ["linear id search replaced by its havoc over-approximation (goto-instrument --havoc-loops)"]
 OUTSIDE = ["the four compressor libraries", "CLI option parsing, real file I/O", "whole-tool gensquashfs -> rdsquashfs runs (decomposed into per-layer obligations, composition argued in DESIGN.md)"]
 META = dict(
